@@ -22,6 +22,19 @@ type Globals struct {
 }
 
 func newGlobals(scopeAdditions map[string]value.Value) Globals {
+	// `throw` is a function value like the other builtins (`let t = throw; t("x")`): the compiler only turns the
+	// direct call `throw(..)` into an instruction of its own. (The interpreter adds it to its scope in the same way.)
+	if _, found := scopeAdditions["throw"]; !found {
+		scopeAdditions["throw"] = *value.NewValueBuiltinFunction(func(_ value.Executor, _ *context.Context, span errors.Span, args ...value.Value) (*value.Value, *value.VmInterrupt) {
+			display, i := args[0].Display()
+			if i != nil {
+				return nil, i
+			}
+
+			return nil, value.NewVMThrowInterrupt(span, display)
+		})
+	}
+
 	return Globals{
 		Data:  scopeAdditions,
 		Mutex: sync.RWMutex{},
